@@ -123,6 +123,122 @@ def enc_sels(labels, sels):
 
 
 # ------------------------------------------------------------------------------------------
+# exact oracles in python (Fractions): the documented formulas, independent of the Coq model
+# ------------------------------------------------------------------------------------------
+def _fr(v):
+    return Fraction(float(v))
+
+
+def o_linear(vals):
+    if any(np.isnan(v) for v in vals) or len(vals) == 2:
+        return NAN
+    q = [_fr(v) for v in vals]
+    tv = sum(abs(a - b) for a, b in zip(q, q[1:]))
+    return (tv - (max(q) - min(q))) / (len(q) - 2)
+
+
+def o_sector(vals):
+    if not vals or any(not np.isfinite(v) for v in vals):
+        return NAN
+    r = sorted(_fr(v) % 360 for v in vals)
+    gaps = [b - a for a, b in zip(r, r[1:])] + [r[0] + 360 - r[-1]]
+    return 360 - max(gaps)
+
+
+def o_angdiff(a, b):
+    d = abs(_fr(a) - _fr(b)) % 360
+    return d if d <= 180 else 360 - d
+
+
+def o_angular(vals):
+    if any(not np.isfinite(v) for v in vals) or len(vals) == 2:
+        return NAN
+    tv = sum(o_angdiff(a, b) for a, b in zip(vals, vals[1:]))
+    return (tv - min(o_sector(vals), Fraction(180))) / (len(vals) - 2)
+
+
+FINDING_INT = "sector-integer-dtype"
+INT_DTYPES = ["uint8", "uint16", "uint32", "int16", "int64"]
+
+
+def seq_oracle(ctx, ff, vals, dtype=None):
+    """1-D sequence (optionally stored with an integer dtype): public functions vs the exact python oracles"""
+    arr = np.array(vals, dtype=float) if dtype is None else np.array([int(v) for v in vals], dtype=dtype)
+    da = xr.DataArray(arr, dims=["t"], coords={"t": list(range(len(vals)))})
+    case = {"values": vals, "dtype": dtype or "float64"}
+    ctx.case(("oracle", tuple(vals), dtype))
+    if any(np.isinf(v) for v in vals):
+        return
+    finite = all(np.isfinite(v) for v in vals)
+    tol = 1e-5 if dtype in ("uint8", "uint16", "int8", "int16") else core.TOL      # xarray promotes small integers to float32
+    lin = core.call_impl(ff.flip_flop_index, da, "t")
+    if lin[0] != "ok" or not core.close(float(lin[1]), o_linear(vals), tol):
+        ctx.violation("flip_flop_index differs from (sum|dx| - (max-min))/(N-2) (NaN iff a NaN is present)", case, str(o_linear(vals)),
+                      lin[1] if lin[0] != "ok" else float(lin[1]))
+    if not finite:
+        return
+    # unsigned / 8-bit integer storage on the directional path: recorded defect until repaired
+    key = FINDING_INT if dtype in ("uint8", "uint16", "uint32", "uint64", "int8") else None
+    sec = core.call_impl(ff.encompassing_sector_size, da, [])
+    if sec[0] != "ok" or not core.close(float(sec[1]), o_sector(vals), tol):
+        ctx.violation("encompassing_sector_size differs from 360 - largest circular gap", case, str(o_sector(vals)),
+                      sec[1] if sec[0] != "ok" else float(sec[1]), finding_key=key)
+    if len(vals) >= 3:
+        ang = core.call_impl(ff.flip_flop_index, da, "t", is_angular=True)
+        if ang[0] != "ok" or not core.close(float(ang[1]), o_angular(vals), tol):
+            ctx.violation("angular flip_flop_index differs from (sum of circular differences - min(360 - largest gap, 180))/(N-2)", case,
+                          str(o_angular(vals)), ang[1] if ang[0] != "ok" else float(ang[1]), finding_key=key)
+
+
+def int_seq(rng):
+    n = rng.randint(3, 7)
+    r = rng.random()
+    if r < 0.3:
+        vals = sorted(rng.randint(0, 100) for _ in range(n))
+        if rng.random() < 0.5:
+            vals.reverse()
+    else:
+        vals = [rng.randint(0, 100) for _ in range(n)]
+    return [float(v) for v in vals]
+
+
+def array_oracle(ctx, ff, rng):
+    """public functions on arrays with the sampling dimension in EVERY position (square shapes included), cell by cell
+    against the list-level oracles"""
+    angular = rng.random() < 0.6
+    sd = "lead_day"
+    others = rng.sample(["station", "member"], rng.randint(1, 2))
+    n = rng.randint(3, 4)
+    sizes = {d: (n if rng.random() < 0.6 else rng.randint(1, 4)) for d in others}          # often square
+    cols = int(np.prod([sizes[d] for d in others]))
+    data = np.array([gen_seq(rng, n, angular, 0.0) for _ in range(cols)], dtype=float).reshape([sizes[d] for d in others] + [n])
+    base = xr.DataArray(data, dims=others + [sd], coords={**{d: list(range(sizes[d])) for d in others}, sd: list(range(n))})
+    import itertools
+    for perm in itertools.permutations(others + [sd]):
+        da = base.transpose(*perm)
+        case = {"data": gens.da_repr(da), "sampling_dim": sd, "is_angular": angular}
+        ctx.case(("array-oracle", repr(case)))
+        calls = [("flip_flop_index", core.call_impl(ff.flip_flop_index, da, sd, is_angular=angular), o_angular if angular else o_linear)]
+        if angular:
+            calls.append(("encompassing_sector_size", core.call_impl(ff.encompassing_sector_size, da, [d for d in perm if d != sd]), o_sector))
+        for name, impl, oracle in calls:
+            if impl[0] != "ok":
+                ctx.violation(name + " raises on a plain array", case, "values", impl[1])
+                continue
+            if set(impl[1].dims) != set(others):
+                ctx.violation(name + ": wrong result dimensions", case, sorted(others), list(impl[1].dims))
+                continue
+            res = impl[1].transpose(*others)
+            for idx in np.ndindex(*[sizes[d] for d in others]):
+                seq = [float(v) for v in base.values[idx]]
+                got = float(res.sel({d: i for d, i in zip(others, idx)}).values)
+                if not core.close(got, oracle(seq)):
+                    ctx.violation(name + " on an array differs from the value of the sequence along the sampling dimension",
+                                  dict(case, cell=dict(zip(others, idx)), sequence=seq), str(oracle(seq)), got)
+                    break
+
+
+# ------------------------------------------------------------------------------------------
 # checks
 # ------------------------------------------------------------------------------------------
 def seq_level(ctx, ff, vals, note):
@@ -195,11 +311,11 @@ def near_duplicates(vals):
 
 def exact_sector(ctx, vals):
     """proved specification (360 - largest circular gap) on the exact rational values of the floats"""
-    return core.dec_nums(ctx.model("c18_seq", enc_list([enc_list([enc_num(Fraction(float(v))) for v in vals])])))[4]
+    return o_sector(vals)
 
 
 def known_cases(ctx, ff):
-    """the recorded defect (known_findings.d/C18.json): fixed tiny inputs, evaluated on every run"""
+    """deterministic corpus: the repros of the recorded defects, evaluated on every run (a regression of a repaired one is a VIOLATION)"""
     for vals in ([10.0, 10.000000000000002, 50.0], [176.75099999999998, 176.751, 244.251]):
         spec = exact_sector(ctx, vals)
         got = float(ff.encompassing_sector_size(seq_da(vals), []))
@@ -210,6 +326,9 @@ def known_cases(ctx, ff):
                           {"values": vals, "angular_index": idx}, str(spec), got, finding_key=FINDING)
         elif idx < -1e-9:
             ctx.violation("angular flip_flop_index is negative", {"values": vals}, ">= 0", idx)
+    for dtype in ("uint16", "uint8", "uint32"):
+        seq_oracle(ctx, ff, [10.0, 20.0, 30.0], dtype)          # uint16: sector 4 / index 16 instead of 20 / 0; uint8: OverflowError
+    seq_oracle(ctx, ff, [50.0, 20.0, 40.0, 80.0], "uint8")      # docstring example stored as uint8: linear index 15
 
 
 def rotation(ctx, ff, vals, rng, rot=None):
@@ -441,6 +560,7 @@ def run(ctx):
                 rotation(ctx, ff, vals, rng)
             else:
                 invariances(ctx, ff, vals, rng)
+    oracle_stream(ctx, ff, rng, ctx.n(60, 1500), ctx.n(25, 400))
     for i in range(ctx.n(250, 8000)):
         if not ctx.time_left():
             break
@@ -453,3 +573,37 @@ def run(ctx):
         if not ctx.time_left():
             break
         prop_level(ctx, ff, rng, i)
+
+
+def oracle_stream(ctx, ff, rng, nseq, narr):
+    """model-free predicates: integer storage dtypes, and arrays with the sampling dimension in every position"""
+    for _ in range(nseq):
+        if not ctx.time_left():
+            break
+        dtype = rng.choice(INT_DTYPES)
+        seq_oracle(ctx, ff, int_seq(rng), dtype)
+        ctx.count("seq:int-dtype:" + dtype)
+    for _ in range(narr):
+        if not ctx.time_left():
+            break
+        array_oracle(ctx, ff, rng)
+        ctx.count("array_oracle")
+
+
+def run_without_model(ctx):
+    """used when the extracted model does not build against the current source: oracles and relations between public calls only"""
+    ff = S()
+    rng = ctx.rng
+    known_cases(ctx, ff)
+    for i in range(ctx.n(400, 6000)):
+        if not ctx.time_left():
+            break
+        angular = rng.random() < 0.5
+        vals = gen_seq(rng, None, angular, nan_p=0.15 if rng.random() < 0.25 else 0.0)
+        seq_oracle(ctx, ff, vals)
+        if all(np.isfinite(vals)):
+            if angular:
+                rotation(ctx, ff, vals, rng)
+            else:
+                invariances(ctx, ff, vals, rng)
+    oracle_stream(ctx, ff, rng, ctx.n(100, 2000), ctx.n(60, 600))
